@@ -12,6 +12,9 @@ type Zone struct {
 	Poison []RR `json:"poison,omitempty"`
 	// Faults are per-name behaviours of the upstream.
 	Faults []Fault `json:"faults,omitempty"`
+	// OneHop: the upstream does not chase CNAMEs: an answer for a name that
+	// owns a CNAME holds that one record and nothing else.
+	OneHop bool `json:"one_hop,omitempty"`
 }
 
 // Fault kinds.
@@ -95,6 +98,9 @@ func (z *Zone) Lookup(qname string, qtype uint16) (answer []RR, rcode int) {
 		r := *cn
 		r.Name = spelled
 		answer = append(answer, r)
+		if z.OneHop {
+			return answer, 0
+		}
 		cur = canon(cn.Target)
 		spelled = cur
 		if seen[cur] {
